@@ -332,6 +332,15 @@ func main() {
 				runlib.EngineErrorf("replay: %v", err)
 			}
 
+			if len(w.Ops) == 1 && w.Ops[0].Kind == "ringlong" {
+				c.Eval()
+				if fail := runRingLong(w.Init[0], w.Ops[0].V); fail != "" {
+					c.Violation("ring/long", fail, w)
+				}
+
+				return
+			}
+
 			if len(w.Ops) == 1 && w.Ops[0].Kind == "long" {
 				c.Eval()
 				if fail := runLong(w.Type, w.Init, w.Ops[0].V); fail != "" {
@@ -435,8 +444,19 @@ func main() {
 		// (iii) long chains: 1..14 elements inserted in several orders, every
 		// element queried, deleted and re-added.
 		maxN := runlib.Pick(c, 14, 24)
+		ns := []int{}
+		for n := 1; n <= maxN; n++ {
+			ns = append(ns, n)
+		}
+
+		// Around the powers of two that size-dependent shortcuts use.
+		ns = append(ns, 31, 32, 33, 34, 63, 64, 65, 66, 127, 128, 129)
+		if !c.Quick() {
+			ns = append(ns, 255, 256, 257, 1024, 1025)
+		}
+
 		for _, typ := range []string{"sorted", "map"} {
-			for n := 1; n <= maxN; n++ {
+			for _, n := range ns {
 				orders := [][]int{}
 				asc := make([]int, n)
 				for i := range asc {
@@ -456,6 +476,11 @@ func main() {
 				orders = append(orders, asc, desc, inout)
 				for oi, ord := range orders {
 					for victim := 0; victim < n; victim++ {
+						if n > maxN && victim > 1 && victim < n-2 && victim != n/2 {
+							// Large sets: the smallest, the largest and a middle element.
+							continue
+						}
+
 						if !sh.Mine() {
 							continue
 						}
@@ -472,7 +497,107 @@ func main() {
 				}
 			}
 		}
+
+		// (iv) rings of capacity past 64 (lazily grown storage, index
+		// arithmetic past a machine word): every number of pushes up to twice
+		// the capacity plus two, every observer after every push.
+		for _, capn := range []int{15, 16, 17, 31, 32, 33, 63, 64, 65, 66, 100, 128, 129, 200} {
+			if !sh.Mine() {
+				continue
+			}
+
+			c.Eval()
+			c.Family("ring-long")
+			if fail := runRingLong(capn, 2*capn+2); fail != "" {
+				c.Violation("ring/long", fail, witness{Type: "ring", Init: []int{capn}, Ops: []op{{Kind: "ringlong", V: 2*capn + 2}}})
+			}
+
+			c.NontrivialInjective()
+		}
 	})
+}
+
+// runRingLong pushes k values into a ring of capacity capn and compares every
+// observer with the model after every push, then clears and pushes again.
+func runRingLong(capn, pushes int) (fail string) {
+	pv, _ := runlib.Try(func() {
+		rb := container.NewRingBuffer[int](uint(capn))
+		var hist []int
+		check := func(when string) bool {
+			keep := hist
+			if len(keep) > capn {
+				keep = keep[len(keep)-capn:]
+			}
+
+			if int(rb.Len()) != len(keep) {
+				fail = fmt.Sprintf("%s: Len() = %d, want %d", when, rb.Len(), len(keep))
+
+				return false
+			}
+
+			wantCur := 0
+			if capn > 0 && len(keep) == capn {
+				wantCur = keep[0]
+			}
+
+			if got := rb.Current(); got != wantCur {
+				fail = fmt.Sprintf("%s: Current() = %d, want %d", when, got, wantCur)
+
+				return false
+			}
+
+			var got []int
+			rb.Range(func(v int) bool { got = append(got, v); return true })
+			if !slices.Equal(got, keep) && len(got)+len(keep) > 0 {
+				fail = fmt.Sprintf("%s: Range yields %d values, first difference from the last %d pushed", when, len(got), len(keep))
+
+				return false
+			}
+
+			got = got[:0]
+			rb.ReverseRange(func(v int) bool { got = append(got, v); return len(got) < 3 })
+			for i := range got {
+				if got[i] != keep[len(keep)-1-i] {
+					fail = fmt.Sprintf("%s: ReverseRange yields %v first, want the newest values", when, got)
+
+					return false
+				}
+			}
+
+			return true
+		}
+
+		if !check("new buffer") {
+			return
+		}
+
+		for i := 1; i <= pushes; i++ {
+			rb.Push(i)
+			hist = append(hist, i)
+			if !check(fmt.Sprintf("capacity %d after %d pushes", capn, i)) {
+				return
+			}
+		}
+
+		rb.Clear()
+		hist = nil
+		if !check(fmt.Sprintf("capacity %d after %d pushes and Clear", capn, pushes)) {
+			return
+		}
+
+		for i := 1; i <= min(pushes, capn+2); i++ {
+			rb.Push(1000 + i)
+			hist = append(hist, 1000+i)
+			if !check(fmt.Sprintf("capacity %d, Clear, then %d pushes", capn, i)) {
+				return
+			}
+		}
+	})
+	if pv != nil {
+		return fmt.Sprintf("panic: %v", pv)
+	}
+
+	return fail
 }
 
 // runLong inserts ord one by one, queries members and non-members after every
@@ -521,6 +646,12 @@ func runLong(typ string, ord []int, victim int) (fail string) {
 		for i, v := range ord {
 			x.Add(v)
 			m[v] = true
+			if len(ord) > 40 && i+4 < len(ord) && (i+1)&(i+2) != 0 && (i+1)&i != 0 {
+				// Large chains are verified at the powers of two (and one past
+				// them) and at the end only.
+				continue
+			}
+
 			if !verify(fmt.Sprintf("after adding %d elements", i+1)) {
 				return
 			}
